@@ -10,7 +10,7 @@
     unbounded [Z] in the model (strings with 8*len+7 >= 2^31 are outside the
     statement: their bit positions do not fit New's int32 arguments). *)
 From Coq Require Import ZArith List Bool.
-From Low Require Import Lib.MachInt Lib.Bits Lib.BitSeq Lib.Bytes Lib.Lex Lib.Pack_bw Model.Bitstr Spec.BitstrSpec Proofs.BitstrProofs.
+From Low Require Import Lib.MachInt Lib.Bits Lib.BitSeq Lib.Bytes Lib.Lex Lib.Pack_bw Lib.Val Model.Bitstr Spec.BitstrSpec Spec.BitstrSearchSpec Proofs.BitstrProofs Proofs.BitstrSearchProofs.
 Import ListNotations.
 Open Scope Z_scope.
 
@@ -113,6 +113,46 @@ Theorem C09_cmpupto_new : forall a s f t, bytes_ok a -> bytes_ok s -> 0 <= f <= 
 Proof. exact CmpUpto_New. Qed.
 Print Assumptions C09_cmpupto_new.
 
+(** * WIDENED: how the functions are combined by users *)
+
+(** truncate-compare is the comparison of the truncation:
+    CmpUpto(a, e) = Cmp(New(a, 0, min(8*len(a), Len(e))), e)   (op bitstr.CmpUpto/viaNew) *)
+Theorem C09_cmpupto_via_new : forall a b, bytes_ok a ->
+  CmpUpto a (encB b) =
+  match New a 0 (Z.min (8 * zlen a) (zlen b)) with Some e => Cmp e (encB b) | None => None end.
+Proof. exact CmpUpto_via_New. Qed.
+Print Assumptions C09_cmpupto_via_new.
+
+(** CmpUpto(., e) is monotone along Go's string order … *)
+Theorem C09_cmpupto_monotone : forall a1 a2 b r1 r2, bytes_ok a1 -> bytes_ok a2 ->
+  bytes_cmp a1 a2 <> Gt ->
+  CmpUpto a1 (encB b) = Some r1 -> CmpUpto a2 (encB b) = Some r2 -> r1 <= r2.
+Proof. exact CmpUpto_mono. Qed.
+Print Assumptions C09_cmpupto_monotone.
+
+(** … so among sorted keys those that start with the bit string form one contiguous block
+    (a binary search with CmpUpto / StrCmpUpto is sound) … *)
+Theorem C09_cmpupto_block : forall a1 a2 a3 b, bytes_ok a1 -> bytes_ok a2 -> bytes_ok a3 ->
+  bytes_cmp a1 a2 <> Gt -> bytes_cmp a2 a3 <> Gt ->
+  CmpUpto a1 (encB b) = Some 0 -> CmpUpto a3 (encB b) = Some 0 -> CmpUpto a2 (encB b) = Some 0.
+Proof. exact CmpUpto_block. Qed.
+Print Assumptions C09_cmpupto_block.
+
+(** … and over a whole sorted key list no call panics, the results are the spec's and
+    non-decreasing (-1…, 0…, 1…)   (op bitstr.CmpUpto/sorted) *)
+Theorem C09_search_sorted : forall ks b, Forall bytes_ok ks -> keys_sortedb ks = true ->
+  exists rs, opt_all (map (fun k => CmpUpto k (encB b)) ks) = Some rs /\
+             rs = spec_search ks b /\ nondecb rs = true.
+Proof. exact search_sorted. Qed.
+Print Assumptions C09_search_sorted.
+
+(** cutting the same string at a later bit gives a larger bit string (equal only for the same cut) *)
+Theorem C09_cmp_new_extend : forall s t1 t2, bytes_ok s -> 0 <= t1 <= t2 -> t2 <= 8 * zlen s ->
+  exists r, match New s 0 t1, New s 0 t2 with Some e1, Some e2 => Cmp e1 e2 | _, _ => None end = Some r
+            /\ r <= 0 /\ (r = 0 <-> t1 = t2).
+Proof. exact Cmp_New_extend. Qed.
+Print Assumptions C09_cmp_new_extend.
+
 (** * non-vacuity: the hypotheses are satisfiable and the statements say something
     ("abc" = 0x61 0x62 0x63; the doc example New("abc", 5, 12)) *)
 Example C09_new_nonvacuous :
@@ -164,3 +204,18 @@ Example C09_cmpBytes_nonvacuous :
   cmpBytes [1; 2; 3; 4; 5; 6; 7; 8; 9] [1; 2] = Some 1 /\
   cmpBytes [1; 2; 3; 4; 5; 6; 7; 8] [1; 2; 3; 4; 5; 6; 7; 9] = Some (-1).
 Proof. repeat split; vm_compute; reflexivity. Qed.
+
+Example C09_search_nonvacuous :
+  let ks := [[0x60]; [0x61]; [0x61; 0x00]; [0x61; 0xff]; [0x62]] in
+  let b := [false; true; true; false; false; false; false; true] in   (* 'a' *)
+  Forall bytes_ok ks /\ keys_sortedb ks = true /\
+  opt_all (map (fun k => CmpUpto k (encB b)) ks) = Some [-1; 0; 0; 0; 1] /\
+  nondecb [-1; 0; 0; 0; 1] = true /\ nondecb [0; -1] = false /\
+  keys_sortedb [[0x61; 0x00]; [0x61]] = false /\
+  (* CmpUpto = Cmp o New(truncation) on a concrete pair *)
+  CmpUpto [0x61; 0xff] (encB b) = Some 0 /\
+  match New [0x61; 0xff] 0 (Z.min (8 * zlen [0x61; 0xff]) (zlen b)) with Some e => Cmp e (encB b) | None => None end = Some 0.
+Proof.
+  cbv zeta. repeat match goal with |- _ /\ _ => split end; try (vm_compute; reflexivity).
+  repeat (apply Forall_cons; [apply bytes_okb_ok; reflexivity|]); apply Forall_nil.
+Qed.
